@@ -73,7 +73,25 @@ type runner struct {
 	out    *outcome
 	lines  []string // op lines executed so far (input form)
 	nested bool     // executing a nested (interleaved) operation
+	// combined mode "Q": real quota-enforcing pool over the real block-device pool over the real
+	// bitmap allocator; judged by the monitors only (no Lean model of the stack)
+	quota              bool
+	maxFiles, maxBytes int64
 }
+
+// remaining quota as the byte-array oracle sees it: maxFiles - #open files, maxBytes - sum of sizes.
+func (r *runner) quotaRemaining() (files, bytes int64) {
+	files, bytes = r.maxFiles, r.maxBytes
+	for _, f := range r.files {
+		if f.open {
+			files--
+			bytes -= int64(len(f.exp))
+		}
+	}
+	return
+}
+
+func isQuotaErr(err error) bool { return err != nil && errKind(err) == "invalid" }
 
 func hexOf(b []byte) string {
 	if len(b) == 0 {
@@ -91,7 +109,7 @@ func parseHex(s string) ([]byte, error) {
 
 func newRunner(cfg string, drv *hx.Driver, out *outcome) (*runner, error) {
 	w := strings.Fields(cfg)
-	if len(w) != 4 || w[0] != "cfg" {
+	if (len(w) != 4 && len(w) != 6) || w[0] != "cfg" || (len(w) == 6) != (w[3] == "Q") {
 		return nil, fmt.Errorf("bad cfg line %q", cfg)
 	}
 	ss, err1 := strconv.Atoi(w[1])
@@ -99,7 +117,17 @@ func newRunner(cfg string, drv *hx.Driver, out *outcome) (*runner, error) {
 	if err1 != nil || err2 != nil || ss < 1 || nsec < 0 || nsec > 100000 {
 		return nil, fmt.Errorf("bad cfg line %q", cfg)
 	}
-	r := &runner{drv: drv, out: out, bitmap: w[3] == "B"}
+	r := &runner{drv: drv, out: out, bitmap: w[3] == "B" || w[3] == "Q", quota: w[3] == "Q"}
+	if r.quota {
+		mf, e1 := strconv.ParseInt(w[4], 10, 64)
+		mb, e2 := strconv.ParseInt(w[5], 10, 64)
+		if e1 != nil || e2 != nil || mf < 0 || mb < 0 {
+			return nil, fmt.Errorf("bad cfg line %q", cfg)
+		}
+		r.maxFiles, r.maxBytes = mf, mb
+		r.drv = nil
+		drv = nil
+	}
 	r.e = &env{ss: ss, nsec: nsec, plan: noFaults()}
 	r.e.nest = func(line string) {
 		r.nested = true
@@ -120,6 +148,9 @@ func newRunner(cfg string, drv *hx.Driver, out *outcome) (*runner, error) {
 		r.acct, sa = &a.accounting, a
 	}
 	r.fp = pool.NewBlockDeviceBackedFilePool(r.dev, sa, ss)
+	if r.quota {
+		r.fp = pool.NewQuotaEnforcingFilePool(r.fp, uint64(r.maxFiles), uint64(r.maxBytes))
+	}
 	if drv != nil {
 		if ans, err := drv.Ask(fmt.Sprintf("cfg %d %d", ss, nsec)); err != nil || ans != "ok" {
 			return nil, fmt.Errorf("model driver rejected cfg: %q %v", ans, err)
@@ -312,8 +343,17 @@ func (r *runner) exec(line string) (ok bool) {
 		if tag < 1 || tag > 6 || g < 1 || m < 1 || lim > size || size > 1<<24 {
 			return true
 		}
-		hs := &patternHole{e: r.e, tag: tag, g: g, m: m, d: d, salt: salt, lim: lim, eofStyle: eof != 0}
+		hs := &patternHole{e: r.e, tag: tag, g: g, m: m, d: d, salt: salt, lim: lim, eofStyle: eof != 0,
+			zero: d == 0 && lim == 0 && eof == 0}
+		remF, remB := r.quotaRemaining()
 		real, err := r.fp.NewFile(hs, uint64(size))
+		if r.quota && (remF < 1 || (size > 0 && size > remB)) {
+			r.count("new-quota-rejected")
+			if !isQuotaErr(err) {
+				return r.fail("NewFile(size %d) succeeded (or failed with %v) although only %d files / %d bytes of quota remain", size, err, remF, remB)
+			}
+			return true
+		}
 		if err != nil {
 			return r.fail("NewFile failed: %v", err)
 		}
@@ -324,6 +364,9 @@ func (r *runner) exec(line string) (ok bool) {
 		}
 		r.files = append(r.files, f)
 		r.count("op-new")
+		if hs.zero {
+			r.count("new-with-real-ZeroHoleSource")
+		}
 		if lim > 0 && d > 0 {
 			r.count("new-with-nonzero-hole-source")
 		}
@@ -381,8 +424,20 @@ func (r *runner) exec(line string) (ok bool) {
 			return true
 		}
 		before := r.acct.nUsed
+		_, remB := r.quotaRemaining()
 		got, err := f.real.WriteAt(data, off)
 		r.count("op-write")
+		if r.quota && off >= 0 {
+			if growth := off + int64(len(data)) - int64(len(f.exp)); growth > remB {
+				r.count("write-quota-rejected")
+				if got != 0 || !isQuotaErr(err) || r.acct.nUsed != before {
+					return r.fail("WriteAt growing file %d by %d bytes returned %d, %v although only %d bytes of quota remain", id, growth, got, err, remB)
+				}
+				return r.monitorAfter()
+			} else if isQuotaErr(err) {
+				return r.fail("WriteAt growing file %d by %d bytes was refused (%v) although %d bytes of quota remain", id, growth, err, remB)
+			}
+		}
 		r.count("write-" + errKind(err))
 		if pl.allocCalls >= 2 {
 			r.out.flags["fragmented-write"] = true
@@ -417,8 +472,23 @@ func (r *runner) exec(line string) (ok bool) {
 		if f == nil || !ok1 || size > 1<<24 {
 			return true
 		}
+		_, remB := r.quotaRemaining()
 		err := f.real.Truncate(size)
 		r.count("op-truncate")
+		if r.quota && size >= 0 {
+			if growth := size - int64(len(f.exp)); growth > remB {
+				r.count("truncate-quota-rejected")
+				if !isQuotaErr(err) {
+					return r.fail("Truncate growing file %d by %d bytes returned %v although only %d bytes of quota remain", id, growth, err, remB)
+				}
+				if n, _ := f.real.Len(); n != int64(len(f.exp)) {
+					return r.fail("a Truncate refused for quota changed the size of file %d from %d to %d", id, len(f.exp), n)
+				}
+				return r.monitorAfter()
+			} else if isQuotaErr(err) {
+				return r.fail("Truncate growing file %d by %d bytes was refused (%v) although %d bytes of quota remain", id, growth, err, remB)
+			}
+		}
 		r.count("truncate-" + errKind(err))
 		old := len(f.exp)
 		if size >= 0 {
@@ -622,7 +692,8 @@ func (r *runner) monitorAfter() bool {
 		}
 		secs, size, ok := pool.VerifBlockDeviceBackedFileState(f.real)
 		if !ok {
-			continue
+			// wrapped by the quota pool: the sector lists are not visible; accounting is judged at the end
+			return true
 		}
 		if size != uint64(len(f.exp)) {
 			return r.fail("file %d: sizeBytes = %d, byte-array oracle has size %d", id, size, len(f.exp))
@@ -689,6 +760,9 @@ func (r *runner) epilogue() bool {
 	if r.acct.allocs != r.acct.frees {
 		return r.fail("%d sectors were allocated but %d were freed", r.acct.allocs, r.acct.frees)
 	}
+	if r.quota && !r.fullQuota() {
+		return false
+	}
 	if r.base != nil {
 		// the real allocator must be able to hand out the full capacity again
 		total := 0
@@ -702,6 +776,49 @@ func (r *runner) epilogue() bool {
 		if total != r.e.nsec {
 			return r.fail("after closing all files the bitmap allocator hands out %d of %d sectors", total, r.e.nsec)
 		}
+	}
+	return true
+}
+
+// fullQuota: with everything closed, maxFiles files holding maxBytes in total can be created again,
+// and not one file or byte more.
+func (r *runner) fullQuota() (ok bool) {
+	defer func() {
+		if p := recover(); p != nil {
+			ok = r.fail("panic while re-allocating the full quota: %v", p)
+		}
+	}()
+	if r.maxFiles == 0 {
+		return true
+	}
+	var fs []filesystem.FileReadWriter
+	defer func() {
+		for _, f := range fs {
+			f.Close()
+		}
+		if ok && r.acct.nUsed != 0 {
+			ok = r.fail("after the full-quota probe %d sectors are still allocated", r.acct.nUsed)
+		}
+	}()
+	for i := int64(0); i < r.maxFiles; i++ {
+		size := uint64(0)
+		if i == 0 {
+			size = uint64(r.maxBytes)
+		}
+		f, err := r.fp.NewFile(pool.ZeroHoleSource, size)
+		if err != nil {
+			return r.fail("after closing all files, NewFile #%d of %d (size %d of byte quota %d) failed with %v: the full quota is not available again", i+1, r.maxFiles, size, r.maxBytes, err)
+		}
+		fs = append(fs, f)
+	}
+	if f, err := r.fp.NewFile(pool.ZeroHoleSource, 0); err == nil {
+		fs = append(fs, f)
+		return r.fail("after closing all files, NewFile #%d succeeded: more than the file quota %d is available", r.maxFiles+1, r.maxFiles)
+	}
+	if err := fs[len(fs)-1].Truncate(1); r.maxFiles > 1 && err == nil {
+		return r.fail("with the whole byte quota %d in use, growing another file succeeded", r.maxBytes)
+	} else if r.maxFiles == 1 && fs[0].Truncate(int64(r.maxBytes)+1) == nil {
+		return r.fail("growing a file beyond the byte quota %d succeeded", r.maxBytes)
 	}
 	return true
 }
@@ -910,6 +1027,9 @@ func (g *gen) newFile() bool {
 	}
 	g.created++
 	tag := (g.created-1)%6 + 1
+	if g.r.Chance(1, 5) { // the real pool.ZeroHoleSource
+		return g.emit(fmt.Sprintf("new %d %d 1 1 0 %d 0 0", size, tag, g.r.Intn(1000)))
+	}
 	return g.emit(fmt.Sprintf("new %d %d %d %d %d %d %d %d", size, tag, gr, m, d, g.r.Intn(1000), lim, g.r.Intn(2)))
 }
 
@@ -1038,9 +1158,15 @@ func generate(rng *hx.Rand, drv *hx.Driver) ([]string, outcome) {
 		kind = "B"
 	}
 	cfg := fmt.Sprintf("cfg %d %d %s", ss, nsec, kind)
+	quota := rng.Chance(1, 6)
+	if quota { // the real stack: quota pool over block-device pool over bitmap allocator
+		kind = "Q"
+		mb := []int{ss * nsec / 2, ss * nsec, 2 * ss * nsec, 3*ss + 1, 0}[rng.Intn(5)]
+		cfg = fmt.Sprintf("cfg %d %d Q %d %d", ss, nsec, 1+rng.Intn(6), mb)
+	}
 	out := outcome{flags: map[string]bool{}, hist: map[string]int{}}
 	g := &gen{r: rng, ss: ss, nsec: nsec, maxIdx: min(nsec+6, 40), faulty: rng.Chance(1, 2), fill: rng.Chance(1, 4),
-		inter: rng.Chance(1, 3), lines: []string{cfg}}
+		inter: !quota && rng.Chance(1, 3), lines: []string{cfg}}
 	r, err := newRunner(cfg, drv, &out)
 	if err != nil {
 		out.mismatch = err.Error()
@@ -1083,7 +1209,7 @@ func generate(rng *hx.Rand, drv *hx.Driver) ([]string, outcome) {
 
 func main() {
 	o := hx.ParseFlags()
-	res := hx.NewResult("filepool", o, "random write/read/truncate/seek/len/close histories over 1-6 simultaneously open files (<= 10 per history) of the real block-device-backed pool; sector sizes {1,2,3,8,512}, devices of 1-130 sectors, scripted or real bitmap allocator, tagged non-zero hole sources, offsets at sector boundaries +-1 and around the file size, faults injected into device reads/writes, hole-source reads/seeks/Truncate/Close and allocations; in a third of the histories operations are interleaved: a complete write/read/truncate on ANOTHER file runs (re-entrantly, deterministically) in the middle of an operation, when one of its hole-source reads or device reads/writes is entered - judged by the same per-file oracle and accounting, and compared with the model as 'nested operation first, then the outer one'; non-trivial = the history re-used a freed sector, shrank a file into the middle of a sector, and wrote to at least two files; distinct = hash of the op list")
+	res := hx.NewResult("filepool", o, "random write/read/truncate/seek/len/close histories over 1-6 simultaneously open files (<= 10 per history) of the real block-device-backed pool; sector sizes {1,2,3,8,512}, devices of 1-130 sectors, scripted or real bitmap allocator, tagged non-zero hole sources, offsets at sector boundaries +-1 and around the file size, faults injected into device reads/writes, hole-source reads/seeks/Truncate/Close and allocations; in a third of the histories operations are interleaved: a complete write/read/truncate on ANOTHER file runs (re-entrantly, deterministically) in the middle of an operation, when one of its hole-source reads or device reads/writes is entered - judged by the same per-file oracle and accounting, and compared with the model as 'nested operation first, then the outer one'; a sixth of the histories run the whole real stack (quota-enforcing pool over the block-device pool over the bitmap allocator) monitor-only: byte-array oracle, exact acceptance/refusal of every NewFile/WriteAt/Truncate against files+bytes quota computed from the oracle's sizes, and after closing everything the full file and byte quota and the full sector capacity must be allocatable again; non-trivial = the history re-used a freed sector, shrank a file into the middle of a sector, and wrote to at least two files; distinct = hash of the op list")
 	drv, err := hx.StartDriver("filepool")
 	if err != nil {
 		fmt.Fprintln(os.Stderr, "cannot start model driver:", err)
